@@ -188,12 +188,19 @@ func totalCffsetsFromCFF(b []byte, out *totalCffsetsSeedSet) {
 // ---------------------------------------------------------------- structured generators
 
 // totalCffsetsGenCharset: a charset table for about n glyphs; `how` names the shape.
-func totalCffsetsGenCharset(r *Rng) (b []byte, n int, how string) {
+//
+// The Lean model works on lists: a format-0 table with n names costs it O(n^2) (36 s for n = 65535
+// in the compiled driver), so sizes above 4000 are drawn for format 0 only when `big` is set
+// (thorough tier); formats 1 and 2 are linear and keep the full range.
+func totalCffsetsGenCharset(r *Rng, big bool) (b []byte, n int, how string) {
 	n = Pick(r, []int{1, 1, 2, 2, 3, 5, 10, 17, 100, 255, 256, 257, 258, 600})
 	if r.Chance(1, 40) {
 		n = Pick(r, []int{65535, 65534, 4000})
 	}
 	format := r.Intn(3)
+	if format == 0 && n > 4000 && !big {
+		n = 4000
+	}
 	b = []byte{byte(format)}
 	switch format {
 	case 0:
@@ -410,7 +417,8 @@ func totalCffsetsGenEncoding(r *Rng) (b []byte, cs []int, how string) {
 	return b, cs, how
 }
 
-func totalCffsetsGenFDSelect(r *Rng) (b []byte, n, np int, how string) {
+// (format 0 with n above 5000 only when `big` is set: the model's lookups are O(n^2) there)
+func totalCffsetsGenFDSelect(r *Rng, big bool) (b []byte, n, np int, how string) {
 	n = Pick(r, []int{0, 1, 1, 2, 2, 3, 5, 10, 40, 100, 300, 1023, 1024, 1025, 2049})
 	if r.Chance(1, 40) {
 		n = Pick(r, []int{65535, 65534, 5000})
@@ -431,6 +439,9 @@ func totalCffsetsGenFDSelect(r *Rng) (b []byte, n, np int, how string) {
 	}
 	if r.Bool() {
 		how = "f0"
+		if n > 5000 && !big {
+			n = 5000
+		}
 		b = []byte{0}
 		k := n
 		switch r.Intn(10) {
@@ -537,6 +548,7 @@ func init() {
 
 	totalModelGens["cffsets"] = func(c *Ctx, r *Rng, seeds []totalSeed) {
 		budget := c.N/3 + 1
+		big := c.Tier == "thorough" // lines whose Lean side is slow (format-0 tables of > 4000 glyphs)
 
 		csCase := func(src string, b []byte, n int) string {
 			out := c.Case(Verdict, "tmcffsets.charset", fmt.Sprintf("bytes=%s n=%d", hx(b), n), len(b) > 0)
@@ -610,11 +622,26 @@ func init() {
 		} {
 			csCase("fixed", fx.b, fx.n)
 		}
+		{ // one moderately large format-0 table in every tier (≈ 2 s in the compiled driver)
+			b := []byte{0}
+			for i := 1; i < 14000; i++ {
+				b = append(b, totalBe16b(i+390)...)
+			}
+			csCase("fixed:f0-14000", b, 14000)
+		}
+		if big {
+			for _, n := range []int{65535, 65534} {
+				b := append([]byte{0}, r.Bytes(2*(n-1))...)
+				csCase("fixed:f0-max", b, n)
+				fd := append([]byte{0}, make([]byte, n)...)
+				fdCase("fixed:f0-max", fd, n, 1)
+			}
+		}
 		trunc := 0
 		for i := 0; i < budget; i++ {
 			switch {
 			case i%10 < 5:
-				b, n, how := totalCffsetsGenCharset(r)
+				b, n, how := totalCffsetsGenCharset(r, big)
 				csCase("gen:"+how, b, n)
 				if len(b) <= 24 && trunc < budget/6 {
 					for k := 0; k < len(b); k++ {
@@ -649,10 +676,10 @@ func init() {
 					s := Pick(r, ss.charsets)
 					b, n = s[0].([]byte), s[1].(int)
 					if !small(b) {
-						b, n, _ = totalCffsetsGenCharset(r)
+						b, n, _ = totalCffsetsGenCharset(r, big)
 					}
 				} else {
-					b, n, _ = totalCffsetsGenCharset(r)
+					b, n, _ = totalCffsetsGenCharset(r, big)
 				}
 				if len(b) > 3000 {
 					b = b[:3000]
@@ -790,7 +817,7 @@ func init() {
 		for i := 0; i < budget; i++ {
 			switch {
 			case i%10 < 4:
-				b, n, np, how := totalCffsetsGenFDSelect(r)
+				b, n, np, how := totalCffsetsGenFDSelect(r, big)
 				fdCase("gen:"+how, b, n, np)
 				if len(b) <= 24 && trunc < budget/6 {
 					for k := 0; k < len(b); k++ {
@@ -824,10 +851,10 @@ func init() {
 					s := Pick(r, ss.fdselects)
 					b, n, np = s[0].([]byte), s[1].(int), s[2].(int)
 					if !small(b) {
-						b, n, np, _ = totalCffsetsGenFDSelect(r)
+						b, n, np, _ = totalCffsetsGenFDSelect(r, big)
 					}
 				} else {
-					b, n, np, _ = totalCffsetsGenFDSelect(r)
+					b, n, np, _ = totalCffsetsGenFDSelect(r, big)
 				}
 				if len(b) > 3000 {
 					b = b[:3000]
